@@ -94,6 +94,30 @@ var (
 	numZeroBuf = []byte{'0'}
 )
 
+// isNumberContinuation reports whether c would extend an integer literal into a
+// longer number token: more digits after a leading zero, a fraction or an exponent.
+func isNumberContinuation(c byte) bool {
+	return numTable[c] || c == '.' || c == 'e' || c == 'E'
+}
+
+// validateIntegerLiteral rejects what the digit scanners accept but JSON integers do not allow:
+// a sign without digits, a leading zero after the sign, and a following fraction or exponent.
+// next is the byte after the literal.
+func (d *intDecoder) validateIntegerLiteral(num []byte, next byte, offset int64) error {
+	if num[0] == '-' {
+		if len(num) < 2 {
+			return errors.ErrInvalidCharacter(next, "number(integer)", offset)
+		}
+		if num[1] == '0' && len(num) > 2 {
+			return errors.ErrInvalidCharacter(num[2], "number(integer)", offset)
+		}
+	}
+	if next == '.' || next == 'e' || next == 'E' {
+		return d.typeError(append(append([]byte{}, num...), next), offset)
+	}
+	return nil
+}
+
 func (d *intDecoder) decodeStreamByte(s *Stream) ([]byte, error) {
 	for {
 		switch s.char() {
@@ -118,9 +142,18 @@ func (d *intDecoder) decodeStreamByte(s *Stream) ([]byte, error) {
 			if len(num) < 2 {
 				goto ERROR
 			}
+			if err := d.validateIntegerLiteral(num, s.char(), s.totalOffset()); err != nil {
+				return nil, err
+			}
 			return num, nil
 		case '0':
 			s.cursor++
+			if s.char() == nul {
+				s.read()
+			}
+			if isNumberContinuation(s.char()) {
+				return nil, d.typeError([]byte{'0', s.char()}, s.totalOffset())
+			}
 			return numZeroBuf, nil
 		case '1', '2', '3', '4', '5', '6', '7', '8', '9':
 			start := s.cursor
@@ -137,6 +170,9 @@ func (d *intDecoder) decodeStreamByte(s *Stream) ([]byte, error) {
 				break
 			}
 			num := s.buf[start:s.cursor]
+			if err := d.validateIntegerLiteral(num, s.char(), s.totalOffset()); err != nil {
+				return nil, err
+			}
 			return num, nil
 		case 'n':
 			if err := nullBytes(s); err != nil {
@@ -165,6 +201,12 @@ func (d *intDecoder) decodeByte(buf []byte, cursor int64) ([]byte, int64, error)
 			continue
 		case '0':
 			cursor++
+			if c := char(b, cursor); numTable[c] {
+				// leading zero: store nothing, the caller rejects the stray digit.
+				return nil, cursor, nil
+			} else if isNumberContinuation(c) {
+				return nil, 0, d.typeError([]byte{'0', c}, cursor)
+			}
 			return numZeroBuf, cursor, nil
 		case '-', '1', '2', '3', '4', '5', '6', '7', '8', '9':
 			start := cursor
@@ -173,6 +215,9 @@ func (d *intDecoder) decodeByte(buf []byte, cursor int64) ([]byte, int64, error)
 				cursor++
 			}
 			num := buf[start:cursor]
+			if err := d.validateIntegerLiteral(num, char(b, cursor), cursor); err != nil {
+				return nil, 0, err
+			}
 			return num, cursor, nil
 		case 'n':
 			if err := validateNull(buf, cursor); err != nil {
